@@ -224,7 +224,7 @@ func Explore(w *World, fn *ssa.Function, opts *Options, workers, maxPaths int, t
 	t0 := time.Now()
 	var mu sync.Mutex
 	cond := sync.NewCond(&mu)
-	work := [][]int{nil}
+	work := [][]int{opts.Root}
 	active := 0
 	lastProgress := time.Now()
 	pendingW := 0
